@@ -4,7 +4,7 @@ mod square;
 mod undirected;
 mod undirected_weighted;
 mod utility;
-use crate::{Error, Graph};
+use crate::{Error, ErrorKind, Graph};
 use directed::get_directed_triangles_and_degrees;
 use directed_weighted::get_directed_weighted_triangles_and_degrees;
 use std::collections::HashMap;
@@ -74,6 +74,7 @@ where
     A: Clone + Send + Sync,
 {
     graph.ensure_not_multi_edges()?;
+    ensure_nodes_exist(graph, node_names)?;
     match graph.specs.directed {
         true => match weighted {
             true => {
@@ -121,6 +122,7 @@ where
 {
     graph.ensure_undirected()?;
     graph.ensure_not_multi_edges()?;
+    ensure_nodes_exist(graph, node_names)?;
     let tads = get_triangles_and_degrees(graph, node_names);
     Ok(tads
         .into_iter()
@@ -198,6 +200,7 @@ where
 {
     graph.ensure_undirected()?;
     graph.ensure_not_multi_edges()?;
+    ensure_nodes_exist(graph, node_names)?;
     let tads = get_triangles_and_degrees(graph, node_names);
     Ok(tads
         .into_iter()
@@ -208,6 +211,21 @@ where
 ///////////////////////
 /// PRIVATE METHODS ///
 ///////////////////////
+
+/// Returns a `NodeNotFound` error if any of the `node_names` is not in the `graph`.
+fn ensure_nodes_exist<T, A>(graph: &Graph<T, A>, node_names: Option<&[T]>) -> Result<(), Error>
+where
+    T: Hash + Eq + Clone + Ord + Display + Send + Sync,
+    A: Clone + Send + Sync,
+{
+    match node_names {
+        Some(names) if !graph.has_nodes(names) => Err(Error {
+            kind: ErrorKind::NodeNotFound,
+            message: "One or more of the specified nodes were not found in the graph.".to_string(),
+        }),
+        _ => Ok(()),
+    }
+}
 
 fn get_clustering_directed<T, A>(graph: &Graph<T, A>, node_names: Option<&[T]>) -> HashMap<T, f64>
 where
